@@ -164,13 +164,14 @@ package types
 //@   trusted "types/map.go (sync.Map port on atomics/unsafe) is outside the verified subset"
 //@   pure
 //@   ensures ok == uf_b_mapHas(m, key, m.$mapver)
+//@   ensures ok ==> iface(value) == uf_i_mapVal(m, key, m.$mapver)
 //@   ensures ok ==> value != nil   // every Store of this code base stores a non-nil value (precondition of Store below)
 
 //@ func (*Map).Store(key, value)
 //@   trusted "types/map.go (sync.Map port on atomics/unsafe) is outside the verified subset"
 //@   requires value != nil
 //@   modifies m.$mapver
-//@   ensures uf_b_mapHas(m, key, m.$mapver)
+//@   ensures uf_b_mapHas(m, key, m.$mapver) && uf_i_mapVal(m, key, m.$mapver) == iface(value)
 
 //@ func (*Map).Delete(key)
 //@   trusted "types/map.go (sync.Map port on atomics/unsafe) is outside the verified subset"
